@@ -114,6 +114,7 @@ func (v *vfSplitConn) Write(p []byte) (int, error) {
 }
 
 type vfTunnelPlan struct {
+	Relay     string   `json:"relay_connector,omitempty"` // with one relay in the path: ok, nil, dead, banner, silent
 	Attackers []string `json:"attackers"`
 	When      string   `json:"when"`      // before (the genuine dial), between (dial and greeting), after (adoption), racing
 	Connector string   `json:"connector"` // ok, nil, dead, late-500, late-900, late-1100, late-3000
@@ -164,7 +165,47 @@ func TestVF_C17(t *testing.T) {
 			}
 		}
 	}
+	// one relay in the path; what the relay's own connector towards the server returns varies
+	for _, dir := range []string{"up", "down"} {
+		for _, rc := range []string{"ok", "nil", "dead", "banner", "silent"} {
+			for rep := 0; rep < vfPick(2, 8); rep++ {
+				dir, rc, rep := dir, rc, rep
+				cases = append(cases, vfCase{ID: fmt.Sprintf("%srelay-%s-%s-%d", ytag, dir, rc, rep), Run: func(c *vfCtx) {
+					vfTunnelCase(c, dir, vfTunnelPlan{Connector: "ok", Relay: rc, Inband: false})
+				}})
+			}
+		}
+	}
 	vfRunCases(t, "C17", cases, 6, 240*time.Second)
+}
+
+// vfFakeServer listens on loopback and answers every connection with banner (or nothing).
+func vfFakeServer(banner string) (net.Listener, int) {
+	l, err := net.Listen("tcp", "127.0.0.1:0")
+	if err != nil {
+		return nil, 0
+	}
+	go func() {
+		for {
+			conn, err := l.Accept()
+			if err != nil {
+				return
+			}
+			go func(conn net.Conn) {
+				if banner != "" {
+					conn.Write([]byte(banner))
+				}
+				buf := make([]byte, 256)
+				for {
+					if _, err := conn.Read(buf); err != nil {
+						conn.Close()
+						return
+					}
+				}
+			}(conn)
+		}
+	}()
+	return l, l.Addr().(*net.TCPAddr).Port
 }
 
 func vfTunnelCase(c *vfCtx, dir string, plan vfTunnelPlan) {
@@ -180,8 +221,40 @@ func vfTunnelCase(c *vfCtx, dir string, plan vfTunnelPlan) {
 	tops := []string{"a.bin", "b.txt"}
 	paths := []string{filepath.Join(src, "a.bin"), filepath.Join(src, "b.txt")}
 	cfg := vfCfg{Dir: dir, Tunnel: true, Timeout: 20, Quiet: r.Intn(2) == 0, Bufsize: int64(r.PickInt(4096, 1<<20)), Protocol: r.PickInt(0, 0, 2)}
+	if plan.Relay != "" {
+		cfg.Relays = 1
+	}
 	c.Replay(map[string]interface{}{"cfg": cfg, "plan": plan})
 	s := vfNewSession(c, cfg)
+	if plan.Relay != "" && plan.Relay != "ok" {
+		var fake net.Listener
+		fakePort := 0
+		switch plan.Relay {
+		case "banner":
+			fake, fakePort = vfFakeServer("SSH-2.0-OpenSSH_9.2\r\n")
+		case "silent":
+			fake, fakePort = vfFakeServer("")
+		}
+		if fake != nil {
+			defer fake.Close()
+		}
+		s.relayTunnelHook = func(port int, dial func() net.Conn) net.Conn {
+			switch plan.Relay {
+			case "nil":
+				return nil
+			case "dead":
+				a, b := net.Pipe()
+				b.Close()
+				return a
+			default: // something that is not the trz/tsz of this transfer answers on the server side
+				conn, err := net.DialTimeout("tcp", fmt.Sprintf("127.0.0.1:%d", fakePort), time.Second)
+				if err != nil {
+					return nil
+				}
+				return conn
+			}
+		}
+	}
 	var mu sync.Mutex
 	var probes []*vfProbeConn
 	var wg sync.WaitGroup
@@ -375,6 +448,10 @@ func vfTunnelCase(c *vfCtx, dir string, plan vfTunnelPlan) {
 		}
 	}
 	// (3) agreement: tunnel in use <=> the client wrote nothing but the ... in-band after the trigger
+	if plan.Relay != "" && plan.Relay != "ok" && tunnelUsed {
+		c.Viol("c17-tunnel-used-without-server", "plan %+v: the relay could not reach the genuine server over its tunnel connector, yet the transfer says the tunnel is connected", plan)
+		return
+	}
 	switch plan.Connector {
 	case "ok", "late-500":
 		if !tunnelUsed {
